@@ -448,7 +448,8 @@ class C06(Property):
             'component round trips through to_text/URL in both quoting modes, and x 4 quote functions; (ii) unquote on '
             'all token strings of length <= 2 over 49 escape/non-escape tokens + random longer ones; (iii) URL texts '
             'generated from the RFC 3986 grammar (all host forms, registered / unregistered / no-netloc schemes); '
-            '(iv) arbitrary short strings over a delimiter-heavy alphabet for URL() and find_all_links totality. '
+            '(iv) every concatenation of <= 3 (thorough: 4) pieces from 19 raw / percent-encoded delimiters; '
+            '(v) arbitrary short strings over a delimiter-heavy alphabet for URL() and find_all_links totality. '
             'Non-trivial = the case exercises escaping (a character that is not unreserved in a component, a '
             'well-formed escape in unquote input), parses into >= 3 non-empty components, raises, or yields a link.')
     ASSUMPTIONS = ['text is a sequence of Unicode scalar values (no lone surrogates)',
@@ -657,10 +658,21 @@ class C06(Property):
                   'steam://x:1', 'http://h/ a?b c#d e', 'http://u%40v:p%3Aq@h/', 'http://%00@h/', 'http://h/%C3%A9/e%CC%81',
                   'http://h/?%e9=%E9', 'http://h/?a=1&a=2&b', 'http://h/\u037e?\u037e#\u037e', 'http://h/?\u212a=\u212a']
 
+    DELIM_PIECES = ['%3A', '%2F', '%3F', '%23', '%40', '%5B', '%25', ':', '/', '//', '?', '#', '@', 'a', '.', '+', '[', ']', '=']
+
+    def delim_small(self):
+        """every concatenation of <= 3 (thorough: 4) raw / escaped delimiters and ordinary characters: the places
+        where a decoded delimiter may be rendered raw into a position where it means something else"""
+        for n in range(1, 5 if self.thorough else 4):
+            for toks in itertools.product(self.DELIM_PIECES, repeat=n):
+                yield {'k': 'p', 't': ''.join(toks)}
+
     def cases(self, budget_s):
         rng = self.rng
         for t in self.EDGE_TEXTS:
             yield {'k': 'p', 't': t}
+        for c in self.delim_small():
+            yield c
         for c in self.matrix():
             yield c
         for c in self.unquote_small():
@@ -669,16 +681,16 @@ class C06(Property):
             for scheme in ['http', 'foo', 'git+ssh']:
                 for port in (None, 8042):
                     yield self.base_build(host=host, v6=v6, via='attrs' if v6 else 'parts', scheme=scheme, port=port)
-        n = 12 if self.thorough else 1
-        for _ in range(3000 * n):
+        counts = ((40000, 60000, 200000, 600000, 40000) if self.thorough else (4000, 8000, 15000, 20000, 4000))
+        for _ in range(counts[0]):
             yield self.random_unquote(rng)
-        for _ in range(3000 * n):
+        for _ in range(counts[1]):
             yield self.random_build(rng)
-        for _ in range(6000 * n):
+        for _ in range(counts[2]):
             yield self.grammar_url(rng)
-        for _ in range(7000 * n):
+        for _ in range(counts[3]):
             yield {'k': 'p', 't': self.totality_text(rng)}
-        for _ in range(1500 * n):
+        for _ in range(counts[4]):
             yield self.link_case(rng)
 
     def deep_cases(self, budget_s):
